@@ -10,6 +10,10 @@ fac <F> <cfg>          -> [events] r=ok|err:E|stuck k=N | [events] r=panic
                                         (new_service(cfg) driven to completion;
                                          on ok the built service becomes the current service)
 ready                  -> [events] r=pending|ok|err:E k=N   (one poll_ready, fresh waker)
+facd <k> <F> <cfg>     -> as `fac`      (the factory value is dropped after k Pending polls of the init
+                                         future, k = 0: before its first poll; same function as `fac`)
+calld <k> <req>        -> as `call`     (the service value is dropped after k Pending polls of the call
+                                         future; same answer as `call`, afterwards there is no current service)
 reset <id> <rp> ok|err -> ok            (leaf <id> of the current service starts a new readiness round:
                                          Pending^rp, then Ready(Ok)|Ready(Err) for ever)
 call <req>             -> [events] r=ok:V|err:E|stuck k=N | [events] r=panic
@@ -260,6 +264,27 @@ def render (log : List Evt) (r : String) : String :=
 
 def fuel : Nat := 64
 
+/-- `fac <F> <cfg>`: drive `new_service(cfg)`; on ok the built service becomes the current one.  The
+result does not depend on how long the factory value lives, so `facd <k> <F> <cfg>` (factory dropped
+after `k` Pending polls of the init future) is the same function -/
+def facStep (st : State) (t : List String) : State × String :=
+  match parseFac t with
+  | some (f, [cfg]) =>
+    match num cfg with
+    | some cfg =>
+      if (facLeafIds f).Nodup then
+        let (fu, l0) := newService f cfg
+        let (r, l, w') := idrive fuel fu st.w
+        let p := (cutPanic (l0 ++ l)).2
+        match r, p with
+        | some (.ok s), false => ({ svc := some s, w := w' + 1 }, render (l0 ++ l) "ok")
+        | some (.err e), _ => ({ svc := none, w := w' + 1 }, render (l0 ++ l) s!"err:{e}")
+        | some (.ok _), true => ({ svc := none, w := w' + 1 }, render (l0 ++ l) "ok")
+        | none, _ => ({ svc := none, w := w' }, render (l0 ++ l) "stuck")
+      else (st, "bad-op")
+    | none => (st, "bad-op")
+  | _ => (st, "bad-op")
+
 def step (st : State) (line : String) : State × String :=
   match tokenize line with
   | "case" :: _ => (init, "ok")
@@ -285,23 +310,15 @@ def step (st : State) (line : String) : State × String :=
       let (r, l, w') := drive fuel fu st.w
       ({ st with w := if r.isSome then w' + 1 else w' }, render (l0 ++ l) (match r with | some r => resStr r | none => "stuck"))
     | _, _ => (st, "bad-op")
-  | "fac" :: t =>
-    match parseFac t with
-    | some (f, [cfg]) =>
-      match num cfg with
-      | some cfg =>
-        if (facLeafIds f).Nodup then
-          let (fu, l0) := newService f cfg
-          let (r, l, w') := idrive fuel fu st.w
-          let p := (cutPanic (l0 ++ l)).2
-          match r, p with
-          | some (.ok s), false => ({ svc := some s, w := w' + 1 }, render (l0 ++ l) "ok")
-          | some (.err e), _ => ({ svc := none, w := w' + 1 }, render (l0 ++ l) s!"err:{e}")
-          | some (.ok _), true => ({ svc := none, w := w' + 1 }, render (l0 ++ l) "ok")
-          | none, _ => ({ svc := none, w := w' }, render (l0 ++ l) "stuck")
-        else (st, "bad-op")
-      | none => (st, "bad-op")
-    | _ => (st, "bad-op")
+  | "fac" :: t => facStep st t
+  | "facd" :: k :: t => if (num k).isSome then facStep st t else (st, "bad-op")
+  | ["calld", k, req] =>
+    match st.svc, num k, num req with
+    | some s, some _, some req =>
+      let (fu, l0) := call s req
+      let (r, l, w') := drive fuel fu st.w
+      ({ svc := none, w := if r.isSome then w' + 1 else w' }, render (l0 ++ l) (match r with | some r => resStr r | none => "stuck"))
+    | _, _, _ => (st, "bad-op")
   | _ => (st, "bad-op")
 
 end Driver.Svc
